@@ -1,11 +1,156 @@
-//! C27 (not built yet)
-use crate::report::{Disagreement, Run};
-use serde_json::Value;
+//! C27 Workbook structure stays well-formed: invariant on every state of every explored history
+//! (after Ok and Err results, undo and redo, with and without paused evaluation).
 
-pub fn run(run: &mut Run) {
-    run.machinery_errors.push("C27: check not built yet".into());
+use crate::hist::{self, HistCfg};
+use crate::invariants::wellformed;
+use crate::ops::Op;
+use crate::report::{Disagreement, Run};
+use crate::seeds;
+use serde_json::{json, Value};
+
+pub struct Out {
+    pub ds: Vec<Disagreement>,
+    pub states: u64,
+    pub key: u128,
+    pub failed_ops: u64,
 }
 
-pub fn replay(_case: &Value) -> Vec<Disagreement> {
-    vec![]
+pub fn judge(seed: &'static str, word: &[Op]) -> Option<Out> {
+    let case = hist::case_json(seed, word);
+    let mut um = seeds::load(seed);
+    let mut ds = vec![];
+    let mut states = 0;
+    let mut failed_ops = 0;
+    let mut paused = false;
+    let mut seen = std::collections::BTreeSet::new();
+    let mut stale = false; // a structural change happened while evaluation was paused
+    for (i, op) in word.iter().enumerate() {
+        let r = crate::env::guarded(|| op.apply(&mut um));
+        match (&r, op) {
+            (_, Op::Pause) => paused = true,
+            (_, Op::Resume) => {
+                paused = false;
+            }
+            (_, Op::Evaluate) => stale = false,
+            _ => {
+                if paused {
+                    stale = true;
+                } else {
+                    stale = false;
+                }
+            }
+        }
+        if let Err(p) = &r {
+            ds.push(Disagreement {
+                sig: format!("panic op={} at={}", op.kind(), p.split(" @ ").last().unwrap_or("")),
+                case: case.clone(),
+                detail: format!("operation {} ({:?}) panicked: {}", i, op, p),
+            });
+            break;
+        }
+        if matches!(r, Ok(Err(_))) {
+            failed_ops += 1;
+        }
+        states += 1;
+        for (class, text) in wellformed(um.get_model(), !stale) {
+            // a broken invariant is inherited by later states: report each class once per history, keep checking
+            if !seen.insert(class.clone()) {
+                continue;
+            }
+            ds.push(Disagreement {
+                sig: format!("invariant={} after={}{}", class, op.kind(), if matches!(r, Ok(Err(_))) { "(Err)" } else { "" }),
+                case: case.clone(),
+                detail: format!("after operation {} ({:?} -> {:?}): {}", i, op, r.as_ref().map(|x| x.is_ok()), text),
+            });
+        }
+    }
+    let key = crate::obs::state_key(um.get_model());
+    Some(Out { ds, states, key, failed_ops })
+}
+
+pub fn run(run: &mut Run) {
+    let thorough = run.tier.thorough();
+    let mut full = seeds::alphabet_full();
+    full.extend(crate::props::c04::invalid_catalogue().into_iter().step_by(if thorough { 1 } else { 3 }));
+    full.extend(vec![Op::Undo, Op::Redo, Op::Pause, Op::Resume, Op::Evaluate]);
+    let mut core = seeds::alphabet_core();
+    core.extend(vec![Op::Undo, Op::Redo, Op::Pause, Op::Evaluate]);
+    let all_seeds: Vec<&'static str> = seeds::SEEDS.to_vec();
+    let mut plans: Vec<(HistCfg, usize, &str)> = vec![
+        (HistCfg { seeds: all_seeds.clone(), alphabet: full.clone(), depth: 1 }, 1, "full+invalid+undo/redo/pause"),
+        (HistCfg { seeds: if thorough { all_seeds.clone() } else { vec!["basic"] }, alphabet: full.clone(), depth: 2 }, 2, "full+invalid+undo/redo/pause"),
+        (HistCfg { seeds: if thorough { all_seeds.clone() } else { vec!["basic"] }, alphabet: if thorough { core.clone() } else { core.iter().step_by(2).cloned().collect() }, depth: 3 }, 3, "core(/2)+undo/redo/pause"),
+    ];
+    if thorough {
+        let small: Vec<Op> = core.iter().step_by(2).cloned().collect();
+        plans.push((HistCfg { seeds: vec!["basic"], alphabet: small, depth: 4 }, 4, "core/2+undo/redo/pause"));
+    }
+    let mut keys = std::collections::HashSet::new();
+    let mut bounds = vec![];
+    let mut failed = 0u64;
+    for (cfg, len, name) in &plans {
+        // hist::explore requires Ok prefixes; here failed operations are part of the quantifier, so a
+        // permissive variant is used: words are enumerated directly
+        let a = cfg.alphabet.len();
+        let prefixes = a.pow((*len - 1) as u32);
+        let n_units = cfg.seeds.len() * prefixes;
+        let res = crate::env::par_units(n_units, |u| {
+            let seed = cfg.seeds[u / prefixes];
+            let mut k = u % prefixes;
+            let mut idx = vec![0usize; len - 1];
+            for i in (0..len - 1).rev() {
+                idx[i] = k % a;
+                k /= a;
+            }
+            let mut word: Vec<Op> = idx.iter().map(|i| cfg.alphabet[*i].clone()).collect();
+            word.push(cfg.alphabet[0].clone());
+            let mut outs = vec![];
+            for op in &cfg.alphabet {
+                *word.last_mut().unwrap() = op.clone();
+                if let Some(o) = judge(seed, &word) {
+                    outs.push(o);
+                }
+            }
+            outs
+        });
+        let mut words = 0u64;
+        for r in res {
+            match r {
+                Ok(outs) => {
+                    for o in outs {
+                        words += 1;
+                        run.evaluations += 1;
+                        run.traces += 1;
+                        run.transitions += o.states;
+                        failed += o.failed_ops;
+                        keys.insert(o.key);
+                        run.add_all(o.ds);
+                    }
+                }
+                Err(e) => run.machinery_errors.push(e),
+            }
+        }
+        bounds.push(json!({"alphabet": name, "alphabet_size": a, "length": len, "seeds": cfg.seeds, "histories": words}));
+        if run.elapsed() > if thorough { 3000.0 } else { 100.0 } {
+            run.cap_hit = Some(format!("wall clock after plan {} len {}", name, len));
+            break;
+        }
+    }
+    run.states = keys.len() as u64;
+    run.nontrivial = keys.len() as u64;
+    run.distinct_outcomes = keys.len() as u64;
+    run.bound = json!({"plans": bounds, "operations_that_returned_err": failed, "hash_seed": crate::env::hash_seed()});
+    run.rule = "every word of the stated length over operations ∪ invalid calls ∪ {undo, redo, pause, resume, evaluate} from each seed (failed operations do NOT cut the history); the well-formedness invariant is evaluated after every step on the public Workbook structure. states / non-trivial = distinct canonical keys (hash of the whole Workbook) of final states".into();
+    run.sample(hist::case_json("basic", &[full[5].clone(), Op::Undo]));
+    run.sample(hist::case_json("imported", &[full[24].clone(), full[200.min(full.len() - 1)].clone()]));
+    run.sample(hist::case_json("basic", &[Op::Pause, core[9].clone(), core[22].clone()]));
+    run.assume("spill clauses are evaluated only when evaluation is current (not between pause_evaluation and the next evaluation)");
+    run.assume("invariant clauses are exactly those of the property statement (names, ids, grid, style/string/formula indices, column/row descriptors, spill ownership/overlap, defined-name scopes)");
+}
+
+pub fn replay(case: &Value) -> Vec<Disagreement> {
+    match hist::case_parse(case) {
+        Some((seed, ops)) => judge(hist::seed_name(&seed), &ops).map(|w| w.ds).unwrap_or_default(),
+        None => vec![],
+    }
 }
